@@ -113,15 +113,22 @@ let with_budget secs (f : unit -> 'a) : 'a option =
   | exception Stack_overflow -> stop (); None
   | exception e -> stop (); raise e
 
-let large_budget = try float_of_string (Sys.getenv "VERIF_C08_LARGE_BUDGET") with _ -> 3.0
+let large_budget = try float_of_string (Sys.getenv "VERIF_C08_LARGE_BUDGET") with _ -> 2.0
+(* the whole time this process may spend on the model of the ln/exp route (thorough runs hold tens of thousands of
+   such cases with precisions of hundreds of digits); afterwards the envelope decides *)
+let large_total = try float_of_string (Sys.getenv "VERIF_C08_LARGE_TOTAL") with _ -> 240.0
+let large_spent = ref 0.0
 (* Some conv = what the as-is model of Context::convert_base predicts on every route; None = not evaluated *)
 let full_asis b nb p m s e : conv option =
   match convert_base_asis b nb p m s e with
   | CLarge ->
-      if Zar.gt p (zi 700) then None
-      else (match with_budget large_budget (fun () -> convert_base_full_asis f32 word_bits fuel b nb p m s e) with
-            | Some CLarge -> None
-            | r -> r)
+      if Zar.gt p (zi 700) || !large_spent > large_total then None
+      else begin
+        let t0 = Unix.gettimeofday () in
+        let r = with_budget large_budget (fun () -> convert_base_full_asis f32 word_bits fuel b nb p m s e) in
+        large_spent := !large_spent +. (Unix.gettimeofday () -. t0);
+        (match r with Some CLarge -> None | r -> r)
+      end
   | r -> Some r
 
 let threshold_small_exp = threshold_small_exp_gen   (* regenerated from float/src/convert.rs *)
@@ -137,7 +144,7 @@ let judge op args got =
   match op with
   | "parse" | "parse_native" | "parse_repr" ->
       let text = bytes_of_tok (arg 2) in
-      let asis = Asis.show_parse (Asis.parse b text) in
+      let asis = Asis.show_parse (if op = "parse_repr" then Asis.parse b text else fbig_from_str_asis b text) in
       let got_class = (match got with "err" :: _ -> "err" | _ -> String.concat " " got) in
       let fid = " asis=" ^ (if asis = got_class then "same" else "diff") in
       (match parse_spec b text with
@@ -279,6 +286,16 @@ let judge op args got =
              | None -> Zar.sign p0 = 0 || Zar.sign (base_prec_spec b nb p0) = 0 in
            if target_unlimited && not related then pass ~nt:false ~extra:"cls=unlimited-panic" () else fail "no-panic"
        | _ -> fail "ok-sig-exp-flag-prec")
+  | "fpc" ->
+      (* FBig::from_parts_const: value sign * sig * B^exp normalised, precision = max (digits, min_precision) *)
+      let sg = z (arg 2) and e = z (arg 3) and mp = optz (arg 4) in
+      let neg = Zar.sign sg < 0 in
+      let ((s', e'), p') = from_parts_const_spec b neg (Zar.abs sg) e mp in
+      let ((sa, ea), pa) = from_parts_const_asis (zi 64) b neg (Zar.abs sg) e mp in
+      let txt s e p = Printf.sprintf "ok %s %s %s" (hx s) (hx e) (hx p) in
+      let fid = " asis=" ^ (if split_ws (txt sa ea pa) = got then "same" else "diff") in
+      let cls = "cls=fpc-" ^ (if Zar.sign sg = 0 then "zero" else if Zar.numbits sg > 64 then "dword" else "word") in
+      expect ~extra:(cls ^ fid) (txt s' e' p') got
   | "wb_prec" ->
       (* FBig::with_base's precision: the implementation reports the two f32 bounds it divides (public API) and the
          precision it chose.  Premise (C12's contract, decided here by C12's bracket test log2_lb_dec): the bounds are
